@@ -3,7 +3,8 @@
    state [start (Some k)] makes request number k+1 fail; [start None] is the fault-free run. *)
 Require Import List ZArith.
 Import ListNotations.
-Require Import LV.Mem.Alloc LV.Mem.AllocProofs LV.Mem.PropList LV.Mem.PropListProofs LV.Mem.ParamSlots LV.Mem.ParamProofs.
+Require Import LV.Mem.Alloc LV.Mem.AllocProofs LV.Mem.PropList LV.Mem.PropListProofs LV.Mem.ParamSlots LV.Mem.ParamProofs
+               LV.Mem.DataAlloc LV.Mem.DataProofs.
 Open Scope Z_scope.
 
 (* Appendix E bind lemma: a composite operation either faults in its first part or continues in
@@ -64,3 +65,21 @@ Print Assumptions pslots_fault_history_no_fault.
 Theorem pslots_orig_refuted : exists ops k, phistory Orig ops (start (Some k)) = Fault OOB.
 Proof. exact pslots_orig_refuted_lemma. Qed.
 Print Assumptions pslots_orig_refuted.
+
+(* vnadata allocation skeleton: a resize with any fault point completes with Done / EINVAL / ENOMEM,
+   and afterwards the invariant holds: rows already reallocated stay owned (capacities may have
+   grown), nothing is orphaned, the object can be resized again and freed.
+   PARTIAL as above (equality with the fault-free result and the repeat are not theorems). *)
+Theorem vdata_fault_clean_partial : forall d s p m f, DInv d s ->
+  exists d' o s', resize Fixed d p m f s = Ok ((d', o), s') /\ DInv d' s'.
+Proof. exact vdata_fault_clean_lemma. Qed.
+Print Assumptions vdata_fault_clean_partial.
+
+Theorem vdata_fault_history : forall pf ops k os s',
+  dhistory Fixed pf ops (start (Some k)) = Ok (os, s') -> live s' = [].
+Proof. exact vdata_fault_history_lemma. Qed.
+Print Assumptions vdata_fault_history.
+
+Theorem vdata_fault_history_no_fault : forall pf ops k f, dhistory Fixed pf ops (start (Some k)) <> Fault f.
+Proof. exact vdata_fault_history_no_fault_lemma. Qed.
+Print Assumptions vdata_fault_history_no_fault.
